@@ -9,7 +9,8 @@
       < <= > >= / %) are compared as sums: both sides are flattened into a list of (coefficient, atom)
       plus a constant, through +, -, unary minus and multiplication by a literal; the constants have to be
       equal and the atoms have to match one to one (same coefficient, atoms equal up to alpha).
-      Nothing is cancelled or merged, so the two sides are defined on the same environments. *)
+      Nothing is cancelled or merged, so the two sides are defined on the same environments.
+    Statements containing calls are not compared (no match). *)
 From Coq Require Import ZArith List Bool QArith Qcanon.
 From Core Require Import Syntax Sem.
 Import ListNotations.
@@ -57,14 +58,25 @@ Definition int_operands (op : binop) : bool :=
 (** ** flattening of sums *)
 Definition atoms := list (Z * expr).
 
+Definition lit (e : expr) : option Z := match e with Int z => Some z | _ => None end.
+
 Fixpoint flat (c : Z) (e : expr) {struct e} : atoms * Z :=
   match e with
   | Int z => ([], c * z)
   | USub a => flat (- c) a
-  | BinOp OAdd a b => let (la, ka) := flat c a in let (lb, kb) := flat c b in (la ++ lb, ka + kb)
-  | BinOp OSub a b => let (la, ka) := flat c a in let (lb, kb) := flat (- c) b in (la ++ lb, ka + kb)
-  | BinOp OMul (Int z) b => flat (c * z) b
-  | BinOp OMul a (Int z) => flat (c * z) a
+  | BinOp op a b =>
+      match op with
+      | OAdd => let (la, ka) := flat c a in let (lb, kb) := flat c b in (la ++ lb, ka + kb)
+      | OSub => let (la, ka) := flat c a in let (lb, kb) := flat (- c) b in (la ++ lb, ka + kb)
+      | OMul => match lit a with
+                | Some z => flat (c * z) b
+                | None => match lit b with
+                          | Some z => flat (c * z) a
+                          | None => ([(c, e)], 0)
+                          end
+                end
+      | _ => ([(c, e)], 0)
+      end
   | _ => ([(c, e)], 0)
   end.
 
@@ -106,41 +118,6 @@ Fixpoint aeq_e (m : bmap) (e e' : expr) {struct e} : bool :=
   | Stride y d, Stride y' d' => vmatch m y y' && Nat.eqb d d'
   | ReadCfg c, ReadCfg c' => Pos.eqb c c'
   | _, _ => false
-  end.
-
-(** ** procedures of nested calls have to be syntactically equal *)
-Definition argkind_eqb (eqe : expr -> expr -> bool) (a b : argkind) : bool :=
-  match a, b with
-  | KSize, KSize | KIndex, KIndex | KBool, KBool | KStride, KStride | KScalar, KScalar => true
-  | KTensor sh w, KTensor sh' w' => all2 eqe sh sh' && Bool.eqb w w'
-  | _, _ => false
-  end.
-
-Fixpoint stmt_eqb (s s' : stmt) {struct s} : bool :=
-  match s, s' with
-  | Assign y idx rhs, Assign y' idx' rhs' | Reduce y idx rhs, Reduce y' idx' rhs' =>
-      Pos.eqb y y' && all2 (aeq_e []) idx idx' && aeq_e [] rhs rhs'
-  | WriteCfg c rhs, WriteCfg c' rhs' => Pos.eqb c c' && aeq_e [] rhs rhs'
-  | Pass, Pass => true
-  | If c a b, If c' a' b' => aeq_e [] c c' && all2 stmt_eqb a a' && all2 stmt_eqb b b'
-  | For i lo hi body par, For i' lo' hi' body' par' =>
-      Pos.eqb i i' && aeq_e [] lo lo' && aeq_e [] hi hi' && all2 stmt_eqb body body' && Bool.eqb par par'
-  | Alloc y sh, Alloc y' sh' => Pos.eqb y y' && all2 (aeq_e []) sh sh'
-  | Call f args, Call f' args' =>
-      match f, f' with
-      | Proc fs ps body, Proc fs' ps' body' =>
-          all2 (fun a b => Pos.eqb (fst a) (fst b) && argkind_eqb (aeq_e []) (snd a) (snd b)) fs fs' &&
-          all2 (aeq_e []) ps ps' && all2 stmt_eqb body body'
-      end && all2 (aeq_e []) args args'
-  | WindowS y rhs, WindowS y' rhs' => Pos.eqb y y' && aeq_e [] rhs rhs'
-  | _, _ => false
-  end.
-
-Definition proc_eqb (f f' : proc) : bool :=
-  match f, f' with
-  | Proc fs ps body, Proc fs' ps' body' =>
-      all2 (fun a b => Pos.eqb (fst a) (fst b) && argkind_eqb (aeq_e []) (snd a) (snd b)) fs fs' &&
-      all2 (aeq_e []) ps ps' && all2 stmt_eqb body body'
   end.
 
 (** [strict = true]: plain alpha-equality (no sums, no skipped window statements); symmetric. *)
@@ -232,7 +209,6 @@ Fixpoint aeq_s (m : bmap) (s s' : stmt) {struct s} : option bmap :=
         end
       else None
   | Alloc y sh, Alloc y' sh' => if all2 (aeq_i m) sh sh' then Some ((y, Some y') :: m) else None
-  | Call f args, Call f' args' => if proc_eqb f f' && all2 (aeq_x m) args args' then Some m else None
   | WindowS y rhs, WindowS y' rhs' => if aeq_x m rhs rhs' then Some ((y, Some y') :: m) else None
   | _, _ => None
   end.
